@@ -89,7 +89,7 @@ class TlcResult:
     def coverage(self):
         """action name -> (distinct, total) from `-coverage 1` output."""
         cov = {}
-        for m in re.finditer(r"<(\w+) line \d+, col \d+ to line \d+, col \d+ of module (\w+)>: (\d+):(\d+)", self.out):
+        for m in re.finditer(r"<(\w+) line \d+, col \d+ to line \d+, col \d+ of module (\w+)(?: \([\d ]+\))?>: (\d+):(\d+)", self.out):
             name = m.group(1)
             d, t = int(m.group(3)), int(m.group(4))
             pd, pt = cov.get(name, (0, 0))
@@ -356,10 +356,10 @@ def parse_dot(path):
     nodes, edges, inits = {}, [], []
     with open(path) as f:
         for line in f:
-            m = re.match(r'^(-?\d+) \[label="(.*)"(,style = filled)?\];?$', line.rstrip("\n"))
+            m = re.match(r'^(-?\d+) \[label="(.*?)"(,style = filled\]|,tooltip=".*"\];?)$', line.rstrip("\n"))
             if m:
                 nodes[m.group(1)] = parse_state_label(m.group(2))
-                if m.group(3):
+                if m.group(3).startswith(",style"):
                     inits.append(m.group(1))
                 continue
             m = re.match(r'^(-?\d+) -> (-?\d+) \[label="(.*?)",color', line)
